@@ -83,7 +83,7 @@ def run_given(sub, seed, tier, n, stats):
     @settings(max_examples=n, database=None, deadline=None, derandomize=False,
               report_multiple_bugs=False, print_blob=False,
               suppress_health_check=list(HealthCheck),
-              phases=[Phase.explicit, Phase.generate, Phase.shrink])
+              phases=[Phase.explicit, Phase.generate] + ([Phase.shrink] if shrink_budget > 0 else []))
     @given(sub.strategy(tier))
     def test(spec):
         if state['failed']:
@@ -154,7 +154,10 @@ def run_machine(sub, seed, tier, n, stats):
         trace = vm.LAST_TRACE
         if trace is not None:
             try:
-                small = ddmin_trace(sub, list(trace), {'quick': 60, 'thorough': 400}[tier], (type(e).__name__, str(e)[:40]))
+                budget = {'quick': 60, 'thorough': 400}[tier]
+                if os.environ.get('VERIF_SHRINK_BUDGET'):
+                    budget = int(os.environ['VERIF_SHRINK_BUDGET'])
+                small = ddmin_trace(sub, list(trace), budget, (type(e).__name__, str(e)[:40]))
             except BaseException:
                 small = list(trace)
             stats.last_spec = {'trace': small}
